@@ -38,6 +38,7 @@ from __future__ import annotations
 import hashlib
 import json
 import logging
+import math
 import re
 import threading
 import time
@@ -115,6 +116,12 @@ class TokenIdentity:
     principal: str
     token_name: str = ""
     ttl_seconds: int = 300
+
+    def __post_init__(self) -> None:
+        """Reject a cache lifetime an asker cannot use: the wire contract is a finite positive number."""
+        ttl = self.ttl_seconds
+        if isinstance(ttl, bool) or not isinstance(ttl, (int, float)) or not math.isfinite(ttl) or ttl <= 0:
+            raise ValueError(f"ttl_seconds must be a finite positive number, got {ttl!r}")
 
 
 #: Resolves an opaque credential, returning ``None`` when it does not resolve.
